@@ -129,6 +129,9 @@ def curves_bounded(ctx):
         # analytic lengths are chord approximations over 100 samples; the spline-interpolated length is a chord
         # approximation through the defining points only, for which no tolerance can be stated: not checked
         tol = 1e-9 if kind in ("linear", "line") else 2e-3
+        back = curve.get_length(hi_, lo_)
+        ctx.prove("length-is-the-same-in-either-parameter-order", abs(back - whole) <= 1e-9 * max(1.0, abs(whole)), forwards=whole, backwards=back)
+        ctx.prove("length-is-positive", whole > 0 and back > 0, forwards=whole, backwards=back)
         if kind != "spline":
             ctx.prove("length-additive-over-a-split", abs(whole - curve.get_length(lo_, c) - curve.get_length(c, hi_)) <= tol * max(1.0, whole), whole=whole)
         if kind == "linear":
